@@ -78,15 +78,43 @@ def theorem_names(pid):
     return re.findall(r"^\s*Theorem\s+([A-Za-z0-9_']+)", src, re.M)
 
 
-def forbidden_scan():
+def closure_files(pid):
+    """.v files Props/<pid>.v depends on (transitively), from coqdep; all files if that fails"""
+    try:
+        rc, out, err = sh("coqdep -Q . MX $(grep '\\.v$' _CoqProject)", cwd=COQ, timeout=120)
+        deps = {}
+        for ln in out.split("\n"):
+            if ":" not in ln:
+                continue
+            lhs, rhs = ln.split(":", 1)
+            tgt = [t for t in lhs.split() if t.endswith(".vo")]
+            if not tgt:
+                continue
+            deps[tgt[0][:-1]] = [d[:-1] for d in rhs.split() if d.endswith(".vo")]
+        todo, seen = [f"Props/{pid}.v"], set()
+        while todo:
+            x = todo.pop()
+            if x in seen:
+                continue
+            seen.add(x)
+            todo.extend(deps.get(x, []))
+        if len(seen) > 1:
+            return sorted(seen)
+    except Exception:
+        pass
+    return sorted(os.path.relpath(os.path.join(d, f), COQ) for d, _, fs in os.walk(COQ) for f in fs if f.endswith(".v"))
+
+
+def forbidden_scan(pid):
     bad = []
-    for d, _, fs in os.walk(COQ):
-        for f in fs:
-            if f.endswith(".v"):
-                txt = open(os.path.join(d, f)).read()
-                txt = re.sub(r"\(\*.*?\*\)", "", txt, flags=re.S)
-                for m in FORBIDDEN.finditer(txt):
-                    bad.append(f"{os.path.relpath(os.path.join(d, f), COQ)}: {m.group(0)}")
+    for rel in closure_files(pid):
+        path = os.path.join(COQ, rel)
+        if not os.path.exists(path):
+            continue
+        txt = open(path).read()
+        txt = re.sub(r"\(\*.*?\*\)", "", txt, flags=re.S)
+        for m in FORBIDDEN.finditer(txt):
+            bad.append(f"{rel}: {m.group(0)}")
     return bad
 
 
@@ -108,7 +136,7 @@ def build_proofs(pid, clean=False):
         if m:
             res["theorem"] = locate_lemma(m.group(1), int(m.group(2)))
         return res
-    bad = forbidden_scan()
+    bad = forbidden_scan(pid)
     if bad:
         res["error"] = "forbidden keywords: " + "; ".join(bad[:10])
         return res
